@@ -161,6 +161,31 @@ def c13_json_typerefs(tier):
             r["witness"] = {"case": {"schema": render_json(s), "schema_ext": "json", "query": "query Q { f }", "options": {"mode": "cli"}}, "observed": r["detail"], "bounded": True,
                             "how": "vx-replay (real crates)", "cases_tried": r["cases"]}
             return [r]
+        # the same type expression as an input-object field and as a variable (json_conversion has a separate entry point for input fields)
+        s2 = {"inputs": {"In": {"fields": [("g", sdl)]}}, "objects": {"Query": {"fields": [("f", "Int")]}}, "query": "Query"}
+        sdl2 = render_sdl(s2).replace("f: Int", "f(i: In, v: %s): Int" % sdl)
+        js2 = json.loads(render_json(s2))
+        for t_ in js2["__schema"]["types"]:
+            if t_["name"] == "Query":
+                t_["fields"][0]["args"] = [{"name": "i", "type": {"kind": "INPUT_OBJECT", "name": "In", "ofType": None}, "defaultValue": None},
+                                           {"name": "v", "type": typeref(sdl, s2), "defaultValue": None}]
+        q2 = "query Q($i: In, $v: %s) { f(i: $i, v: $v) }" % sdl
+        a2 = tokens_of(gen(sdl2, "graphql", q2))
+        b2 = tokens_of(gen(json.dumps(js2), "json", q2))
+        r["cases"] += 1
+        for (pos, want2) in (("input-object field", "pubg:%s" % rust), ("variable", "pubv:%s" % rust)):
+            if b2[0] != "ok" or ((want2 + ",") not in b2[1] and (want2 + "}") not in b2[1]):
+                r["status"] = "fail"
+                r["detail"] = "%s of type `%s` read from introspection JSON: expected %s, generated %s" % (pos, sdl, want2, (re.findall(r"pub[gv]:[^,}]*", b2[1]) if b2[0] == "ok" else b2))
+                r["witness"] = {"case": {"schema": json.dumps(js2), "schema_ext": "json", "query": q2, "options": {"mode": "cli"}}, "observed": r["detail"], "bounded": True,
+                                "how": "vx-replay (real crates)", "cases_tried": r["cases"]}
+                return [r]
+        if a2 != b2:
+            r["status"] = "fail"
+            r["detail"] = "SDL and JSON readings of `%s` at input / variable positions generate different code" % sdl
+            r["witness"] = {"case": {"schema": json.dumps(js2), "schema_ext": "json", "query": q2, "options": {"mode": "cli"}}, "observed": r["detail"], "bounded": True,
+                            "how": "vx-replay (real crates)", "cases_tried": r["cases"]}
+            return [r]
         if a != b:
             r["status"] = "fail"
             r["detail"] = "SDL and JSON readings of `f: %s` generate different code" % sdl
